@@ -334,6 +334,7 @@ fn selftest(args: &[String]) -> i32 {
             layers: vec![],
             taps: false,
             erased: false,
+            form: 0,
         }],
         mutations: vec![],
         schedule: vec![],
